@@ -319,6 +319,22 @@ def apply_op(w, op):
                 _model_del(w, name, i)
             else:
                 return [], 'skipped'
+        elif kind == 'del_at':
+            # positional deletion on the child list itself: del children[i] removes the i-th child, whatever its name
+            kids = el.children
+            if not len(kids):
+                return [], 'skipped'
+            i = op['i'] if -len(kids) <= op['i'] < len(kids) else op['i'] % len(kids)
+            target = kids[i]
+            cname = target.name
+            if cname not in w.finfo:
+                return [], 'skipped'
+            j = sum(1 for c in list(kids)[:list(kids).index(target)] if c.name == cname)
+            if op.get('pop'):
+                kids.pop(i)
+            else:
+                del kids[i]
+            _model_del(w, cname, j)
         elif kind == 'set_datatype':
             # a datatype object assigned by name: only where the child is of that base datatype
             dt = info[5] if len(info) > 5 else None
@@ -449,7 +465,7 @@ def check(case, acc=None):
     for n, op in enumerate(case['ops']):
         many = any(len(r) >= 2 for r in w.model.values())
         vs, kind = apply_op(w, op)
-        if many and kind in ('set', 'setidx', 'set_element', 'set_datatype', 'del', 'delidx', 'remove', 'copy', 'move'):
+        if many and kind in ('set', 'setidx', 'set_element', 'set_datatype', 'del', 'delidx', 'remove', 'copy', 'move', 'del_at'):
             nontrivial = True
         vs = vs or compare(w)
         if vs:
@@ -570,7 +586,7 @@ def cells(draw, versions):
     return field_cell(v, fname, ref, picks)
 
 
-OPS = ('set', 'setidx', 'set_element', 'add', 'add_child', 'del', 'delidx', 'remove', 'copy', 'read', 'read', 'set_datatype', 'set_at', 'move')
+OPS = ('set', 'setidx', 'set_element', 'add', 'add_child', 'del', 'delidx', 'remove', 'copy', 'read', 'read', 'set_datatype', 'set_at', 'move', 'del_at')
 
 
 @st.composite
@@ -583,8 +599,10 @@ def op_for(draw, cell):
     if kind == 'set_datatype':
         op['bad'] = draw(st.sampled_from([0, 0, 1, 2]))
         op['hl'] = draw(st.booleans())
-    if kind in ('setidx', 'delidx', 'remove', 'set_at', 'move'):
+    if kind in ('setidx', 'delidx', 'remove', 'set_at', 'move', 'del_at'):
         op['i'] = draw(st.integers(-4, 3))
+    if kind == 'del_at':
+        op['pop'] = draw(st.booleans())
     if kind == 'move':
         op['by'] = draw(st.sampled_from(['name', 'index']))
     return op
